@@ -147,7 +147,8 @@ def gen_case(rng, variant=None, force=None):
     c = {"variant": variant, "T": T, "N": N, "d": d, "mode": mode, "motion": motion, "cell": cell,
          "H": [[fstr(x) for x in row] for row in H], "ppp": ppp, "types": types, "diam": diam, "a": a, "fast": fast,
          "t0": t0, "interval": interval, "dt": dt, "qconst": qconst,
-         "xu": [[[fstr(v) for v in p] for p in frm] for frm in xu], "cond": cond, "nn": nn}
+         "xu": [[[fstr(v) for v in p] for p in frm] for frm in xu], "cond": cond, "nn": nn,
+         "thin": (rng.randint(1, 10 ** 9) if (nn >= 2 and rng.random() < 0.5) else 0)}
     c.update({k: v for k, v in force.items() if k not in ("d", "T", "N", "mode")})
     return c
 
@@ -255,6 +256,21 @@ def neighbour_tables(c, snaps, tmp):
     from PyMatterSim.neighbors.read_neighbors import read_neighbors
     fn = os.path.join(tmp, "neighborlist.dat")
     Nnearests(snaps, N=c["nn"], ppp=np.array(c["ppp"]), fnfile=fn)
+    if c.get("thin"):
+        # variable coordination numbers (cutoff / Voronoi-style lists): every row keeps only its first k ≥ 1 neighbours,
+        # k drawn reproducibly from the case; the file stays in the documented "id cn neighborlist" format
+        import random as _random
+        r = _random.Random(c["thin"])
+        out = []
+        for line in open(fn):
+            it = line.split()
+            if not it or not it[0].isdigit():
+                out.append(line)
+                continue
+            k = r.randint(1, int(it[1]))
+            out.append(" ".join([it[0], str(k)] + it[2:2 + k]) + "\n")
+        with open(fn, "w") as f:
+            f.writelines(out)
     tabs = []
     with open(fn) as f:
         for _ in range(c["T"]):
@@ -424,7 +440,7 @@ def judge(run, cases, which):
         for key in ("variant", "d", "mode", "motion", "cell", "fast", "T", "N"):
             run.hist(key, c[key])
         run.hist("selection", "none" if c["cond"] is None else ("const" if const_count(c) else "varying"))
-        run.hist("cage", bool(c["nn"]))
+        run.hist("cage", bool(c["nn"])); run.hist("cage_cn", "variable" if c.get("thin") else ("fixed" if c["nn"] else "none"))
         qcol = real[:, 2]
         nontriv = c["T"] >= 3 and bool(np.any((qcol > 0) & (qcol < 1)))
         run.count(lines[idx.index(k)], nontriv, sample={"class": classify(c), "real_row0": [float(x) for x in real[0]],
